@@ -220,7 +220,8 @@ func RunNegotiate(p *NProg) (evs []Ev) {
 	select {
 	case out := <-done:
 		evs = append(evs, out...)
-	case <-time.After(20 * time.Second):
+	case <-time.After(Watchdog(20 * time.Second)):
+		NoteHang()
 		evs = append(evs, Ev{"e": "HANG"})
 	}
 	return evs
